@@ -74,7 +74,9 @@ Pairs   == {With(With(Default, d1), d2) : d1 \in Deviations, d2 \in Deviations} 
 Cfgs == CASE CfgSet = "default" -> {Default}
           [] CfgSet = "singles" -> {Default} \cup Singles
           [] CfgSet = "comment" -> {Default} \cup {With(Default, d) : d \in CommentDeviations}
-          [] CfgSet = "style3"  -> {Default, With(Default, <<"comment_style", "sharp">>), With(Default, <<"comment_style", "slash">>)}
+          [] CfgSet = "style3"  -> {Default, With(Default, <<"comment_style", "sharp">>), With(Default, <<"comment_style", "slash">>),
+                                    With(Default, <<"return_statement_parenthesis", FALSE>>)}
+          [] CfgSet = "restyle" -> {With(Default, <<"comment_style", "sharp">>), With(Default, <<"comment_style", "slash">>)}
           [] CfgSet = "style"   -> {Default} \cup {With(Default, d) : d \in StyleDeviations}
           [] CfgSet = "align"   -> {Default, With(Default, <<"align_trailing_comment", TRUE>>),
                                     With(With(Default, <<"align_trailing_comment", TRUE>>), <<"trailing_comment_width", 3>>)}
@@ -266,6 +268,7 @@ Docs == CASE DocSet = "unit"   -> UnitDocs
           [] DocSet = "group"  -> GroupDocs(2) \cup GroupDocs(3)
           [] DocSet = "group2" -> GroupDocs(2)
           [] DocSet = "esc"    -> EscDocs
+          [] DocSet = "few"    -> FewDocs
           [] DocSet = "props"  -> PropDocs
           [] DocSet = "sortdocs" -> {d \in MultiDocs(2) : \A i \in DOMAIN d.ds : ~d.ds[i].a.p_blank}
 Eligible(gs) == {i \in DOMAIN gs : (~OnlyDocumented) \/ gs[i].d}
@@ -273,8 +276,14 @@ OneAt(gs, i) ==
   {[at |-> i, m |-> m, sp |-> "plain", body |-> i] : m \in Markers}
   \* other spellings of an ordinary comment: a run of marker characters (## / ///), a block comment over two lines,
   \* and - on a line of its own - an empty line in front of the comment
+  \* "bare": the comment is only its marker (#, //, /**/); "run3": ### ; "mix": the other family's character right after
+  \* the marker (#/x, //#x); "star": a star right after a # (#*x - with comment_style slash it must not become /*x)
   \cup (IF Specials THEN {[at |-> i, m |-> "#", sp |-> "run", body |-> i], [at |-> i, m |-> "//", sp |-> "run", body |-> i],
-                            [at |-> i, m |-> "/*", sp |-> "twolines", body |-> i]}
+                            [at |-> i, m |-> "/*", sp |-> "twolines", body |-> i],
+                            [at |-> i, m |-> "#", sp |-> "bare", body |-> i], [at |-> i, m |-> "//", sp |-> "bare", body |-> i],
+                            [at |-> i, m |-> "/*", sp |-> "bare", body |-> i], [at |-> i, m |-> "#", sp |-> "run3", body |-> i],
+                            [at |-> i, m |-> "#", sp |-> "mix", body |-> i], [at |-> i, m |-> "//", sp |-> "mix", body |-> i],
+                            [at |-> i, m |-> "#", sp |-> "star", body |-> i]}
                            \cup (IF gs[i].c \in {"lead", "inner"}
                                  THEN {[at |-> i, m |-> "#", sp |-> "blankbefore", body |-> i], [at |-> i, m |-> "/*", sp |-> "blankbefore", body |-> i]}
                                  ELSE {})
